@@ -3,8 +3,9 @@
     position table / io_nodes of .module) and of kyupy/bench.py (BenchTransformer on top of the
     Circuit / Node / Line constructors of circuit.py).
 
-    NOT modelled: the lark grammars and lexers (text -> tree), passes 1, 1.5, 2 of
-    VerilogTransformer.module (cell / fork / line construction for Verilog), TechLib lookups and
+    Passes 1, 1.5, 2 of VerilogTransformer.module (cell / fork / line construction for Verilog) and the TechLib pin
+    lookups are transcribed in Model/VerilogModule.v on top of Model/Circuit.v (it reuses the declarations, pass 0 and
+    the position table of this file).  NOT modelled: the lark grammars and lexers (text -> tree) and
     Circuit.substitute.  The full semantic theorem for Verilog elaboration would read
 
       verilog_sem : forall (m : module_ast) lib bf c, elab_verilog m lib bf = Some c ->
